@@ -136,10 +136,13 @@ CHECKS["C10"] = {
              "both sides in retry loops (as Server.Accept / Client.Dial use the package) with drawn retry delay, keepalive on (drawn ping/pong, RTT below pong and below the handshake timeout). "
              "Safety oracle: a server attempt that enters the data phase has n (hook) equal to a SYN value that was handed to it, n != 255 and s = n+1; when data flows between the client and a server attempt their n agree; every SYNACK the client sends follows a SYN reply that carried the client's own N (trace). "
              "Progress oracle: within 10 x (4*handshake + 4*resend + ping+pong + retry + RTT + start offset) after the faults ceased some pair of live attempts has exchanged a message in both directions. "
+             "Second unit (TestC10Recovery): ONE client attempt against ONE server attempt, no retry loops, no stale packets, keepalive off (or only the client's first ping): only handshake packets are lost - 0-3 rounds of 'SYN lost' / 'SYN reply lost' in any order, then the SYNACK lost (3 in 4) - "
+             "with the client's first DATA packet or keepalive ping kept behind the expiry of the server's boosted handshake timeout; the handshake repairs each of these losses itself (SYN resend, server restart, DATA/SYNACK accepted after a restart), so this very pair must return connections with the client's N, deliver all messages in both directions within 600 virtual seconds and stay up. "
              "Non-trivial: a SYN/SYNACK was faulted or a stale packet preceded the first SYN; distinct by case."),
     "assumptions": ["convergence is checked with keepalive enabled (see DESIGN.md 5/C10)", "transport model vnet.Link"],
     "units": [
         {"pkg": "gbnprop", "run": "TestC10Handshake", "checks": (2000, 30000), "shards": (1, 8), "timeout": (900, 5400), "gomaxprocs": [16, 1, 2, 4]},
+        {"pkg": "gbnprop", "run": "TestC10Recovery", "checks": (1500, 30000), "shards": (1, 4), "timeout": (900, 5400), "gomaxprocs": [16, 1, 2, 4]},
     ],
 }
 
